@@ -1,3 +1,5 @@
+import SlipVerif.Model.Eval
 import SlipVerif.Model.Num
+import SlipVerif.Driver.Eval
 import SlipVerif.Driver.Num
 import SlipVerif.Driver.Util
